@@ -3,7 +3,8 @@ from vlib import enc
 
 NAMES = [b"10-a.conf", b"9-b.conf", b"B.conf", b"a.conf", b"x.conf", b"noext", b"y.txt", b".hid.conf", b".conf", b"z.conf", b"a.conf.bak",
          b"\xc3\xa9cole.conf", b"\xff.conf", b"~last.conf", b"zz.conf", b"a\x80.conf",
-         b"40-x.conf.conf", b"20-site.config.conf", b"c.conf-o.conf", b"conf.conf", b"d.confconf"]      # the suffix more than once in the name          # incl. names with bytes above 127 (byte-wise order)
+         b"40-x.conf.conf", b"20-site.config.conf", b"c.conf-o.conf", b"conf.conf", b"d.confconf",
+         b"50-ab.conf", b"50-bA.conf"]      # two different names with equal djb2 hashes;      # the suffix more than once in the name          # incl. names with bytes above 127 (byte-wise order)
 
 def content(rng, tag):
     """a small conventional file whose values identify where they come from"""
